@@ -28,7 +28,7 @@ from __future__ import annotations
 
 import ast
 
-from ..astutil import attr_chain, callee_name, calls, handler_types, is_name, is_self_attr, names_in, text, unwrap_await
+from ..astutil import call_recv, attr_chain, callee_name, calls, handler_types, is_name, is_self_attr, names_in, text, unwrap_await
 from ..core import Result
 from ..model import AnchorMissing, Repo, walk_no_nested
 
@@ -155,14 +155,14 @@ def run(repo: Repo) -> Result:
 
     n1 = pairing(
         f"{CTX}.extend",
-        lambda c: callee_name(c) == "push" and attr_chain(c.func.value) == ["self", "scope"],
-        lambda c: callee_name(c) == "pop" and attr_chain(c.func.value) == ["self", "scope"],
+        lambda c: callee_name(c) == "push" and attr_chain(call_recv(c)) == ["self", "scope"],
+        lambda c: callee_name(c) == "pop" and attr_chain(call_recv(c)) == ["self", "scope"],
         "scope",
     )
     n2 = pairing(
         f"{CTX}.loop",
-        lambda c: callee_name(c) == "append" and attr_chain(c.func.value) == ["self", "loops"],
-        lambda c: callee_name(c) == "pop" and attr_chain(c.func.value) == ["self", "loops"],
+        lambda c: callee_name(c) == "append" and attr_chain(call_recv(c)) == ["self", "loops"],
+        lambda c: callee_name(c) == "pop" and attr_chain(call_recv(c)) == ["self", "loops"],
         "loop-stack",
     )
     if n1 != 1 or n2 != 1:
@@ -170,7 +170,7 @@ def run(repo: Repo) -> Result:
     # pops elsewhere
     for f in repo.all_functions():
         for c in calls(f.node, nested=True):
-            if callee_name(c) in ("pop", "push") and isinstance(c.func.value, ast.Attribute) and c.func.value.attr == "scope" and f.qual != f"{CTX}.extend":
+            if callee_name(c) in ("pop", "push") and isinstance(call_recv(c), ast.Attribute) and call_recv(c).attr == "scope" and f.qual != f"{CTX}.extend":
                 res.ob(f"{f.qual}:scope-{callee_name(c)}")
                 res.add("C14-PAIR", f.qual, f"scope-{callee_name(c)}-elsewhere", f"{f.qual} calls scope.{callee_name(c)}() outside RenderContext.extend", f.file, c.lineno)
 
@@ -189,7 +189,7 @@ def run(repo: Repo) -> Result:
                     with_items.add(id(it.context_expr))
         for c in calls(f.node, nested=True):
             if callee_name(c) in ("extend", "loop") and isinstance(c.func, ast.Attribute):
-                recv = attr_chain(c.func.value)
+                recv = attr_chain(call_recv(c))
                 if recv is None or recv[-1] not in ("context", "self", "ctx", "static_context", "macro_context") or (recv == ["self"] and (f.cls is None or f.cls.qual != CTX)):
                     continue
                 n_with += 1
@@ -205,7 +205,7 @@ def run(repo: Repo) -> Result:
         res.ob(f"{fq}:block-scope")
         ok = False
         for n in ast.walk(f.node):
-            if isinstance(n, (ast.With, ast.AsyncWith)) and any(isinstance(it.context_expr, ast.Call) and callee_name(it.context_expr) in mgr and is_name(it.context_expr.func.value, "context") for it in n.items):
+            if isinstance(n, (ast.With, ast.AsyncWith)) and any(isinstance(it.context_expr, ast.Call) and callee_name(it.context_expr) in mgr and is_name(call_recv(it.context_expr), "context") for it in n.items):
                 for c in calls(n, nested=False):
                     if callee_name(c) in ("render", "render_async", "render_with_context", "render_with_context_async"):
                         ok = True
@@ -232,7 +232,7 @@ def run(repo: Repo) -> Result:
     ):
         f = repo.func(fq)
         res.ob(fq)
-        acalls = [c for c in calls(f.node) if callee_name(c) == "assign" and is_name(c.func.value, "context")]
+        acalls = [c for c in calls(f.node) if callee_name(c) == "assign" and is_name(call_recv(c), "context")]
         if not acalls or not all(c.args and text(c.args[0]) == name_expr for c in acalls):
             res.add("C14-BLOCK", fq, "assign", f"{fq} must bind its variable with context.assign({name_expr}, ...)", f.file, f.line)
 
